@@ -193,9 +193,9 @@ Proof.
   all: destruct pa as [dir stem]; crunch.
   all: rewrite exec_bind.
   all: match goal with
-       | |- context [exec E (py_call (g_write_in_cache (VObj ?f) (VPath ?pp) (VStr [AHash ?h]))) (mkGst ?y ?fs ?rt ?pid)] =>
+       | |- context [exec ?EE (py_call (g_write_in_cache (VObj ?f) (VPath ?pp) (VStr [AHash ?h]))) (mkGst ?y ?fs ?rt ?pid)] =>
            let F := fresh "F" in let EQ := fresh "EQ" in let HF := fresh "HF" in
-           destruct (C17gen_write_in_cache_is_target E f (parse (w_cfg w) h) y fs rt pid (mkPath dir stem) h eq_refl) as [F [EQ HF]];
+           destruct (C17gen_write_in_cache_is_target EE f (parse (w_cfg w) h) y fs rt pid (mkPath dir stem) h eq_refl) as [F [EQ HF]];
            unfold pp_of_path in EQ; cbn [p_dir p_stem] in EQ; rewrite EQ
        end.
   all: crunch.
